@@ -6,6 +6,7 @@
   every code point.  The JSON string codec round trip and multi-byte content
   are validated by the `ident` / `jsoncodec` streams (see DESIGN.md).
 -/
+import Proofs.LiteralToken
 import Props.Tables
 import Proofs.LexerRoundTrip
 import Props.Bytes
@@ -105,7 +106,10 @@ theorem C14_identifier_trailing (r : Nat) :
 /-- White space between tokens is skipped: the four white-space characters of
     the language, and only they, produce no token. -/
 theorem C14_white_space (r : Nat) : Generated.whiteSpace.contains r = (r == 0x20 || r == 0x09 || r == 0x0A || r == 0x0D) := by
-  simp only [Generated.whiteSpace, List.contains_cons, List.contains_nil, Bool.or_false, Bool.or_assoc]
+  -- stated up to the order in which the source (or the exhaustive probe) lists the four characters
+  have hp : Generated.whiteSpace.Perm [0x20, 0x09, 0x0A, 0x0D] := by decide
+  rw [hp.contains_eq]
+  simp only [List.contains_cons, List.contains_nil, Bool.or_false, Bool.or_assoc]
 
 /-! Non-vacuity. -/
 example : RawOK [0x61, 0x5C, 0x62, 0x27, 0x63] ∧ Ascii [0x61, 0x5C, 0x62, 0x27, 0x63] := by
@@ -207,5 +211,30 @@ theorem C14_raw_string_denotes {N : Type} [NumOps N] (s : Bytes) (hv : ValidUtf8
     rw [Parser.parseTokens_congr (sameDecisions_of_tableOK Generated.table Spec.table generated_table_ok spec_table_ok)]
     exact Parser.round_trip_spec (PE.raw s) trivial
   simp only [Api.search, hcomp, Interp.eval]
+
+open Jmes.Lexer Jmes.Json Jmes.Spec in
+/-- **Backtick literals, end to end, for every JSON value** (finite numbers, well-formed UTF-8,
+    ascending keys, nesting within the decoder's limit): the expression `` ` `` + JSON text of `v`
+    with `` ` `` written `` \` `` + `` ` `` compiles to the literal `v`, so `Search` returns exactly
+    `v` on every document.  Conditional on the number-text contract (`NumCodec`: the text reads
+    back; `NumPlain`: it is plain ASCII) — both proved for the integer instance
+    (`C14_literal_contract_satisfiable`), assumed for the ported float formatter. -/
+theorem C14_literal_denotes {N : Type} [NumOps N] (hN : NumCodec N) (hP : NumPlain N) (v : Val N) (hv : okV v)
+    (hd : depthV v ≤ maxDepth) (d : Val N) :
+    Api.search Model.cfg (0x60 :: (btSpell (encode v) ++ [0x60])) d = .ok v := by
+  have hr : Rendered [(.jsonLiteral, encode v)] ([] ++ ((0x60 :: (btSpell (encode v) ++ [0x60])) ++ [])) :=
+    Rendered.cons [] .jsonLiteral (encode v) _ [] [] (by simp) (spell_literal hP v hv) (Rendered.nil [] (by simp)) trivial
+  simp only [List.nil_append, List.append_nil] at hr
+  have hk : Parser.KeysOf (ppE (PE.lit (encode v) v : PE N)) [(.jsonLiteral, encode v)] := by
+    simp only [ppE]
+    exact Parser.KeysOf.cons rfl (fun _ => rfl) Parser.KeysOf.nil
+  have hcomp : (Api.compile Model.cfg (0x60 :: (btSpell (encode v) ++ [0x60])) : Res (Node N)) = .ok (.literal v) := by
+    refine compile_rendered hk hr ?_
+    rw [Parser.parseTokens_congr (sameDecisions_of_tableOK Generated.table Spec.table generated_table_ok spec_table_ok)]
+    exact Parser.round_trip_spec (PE.lit (encode v) v) (decode_encode hN v hv hd)
+  simp only [Api.search, hcomp, Interp.eval]
+
+/-- The two number-text hypotheses are satisfiable together (integer instance). -/
+theorem C14_literal_contract_satisfiable : Json.NumCodec Int ∧ Lexer.NumPlain Int := ⟨intNumCodec, intNumPlain⟩
 
 end Jmes.Props
